@@ -86,6 +86,25 @@ pub fn write_run(dir: &str, v: &serde_json::Value) {
     std::fs::write(format!("{dir}/run.json"), serde_json::to_string_pretty(v).unwrap()).unwrap();
 }
 
+/// A logger that accepts every level and formats every record into nothing: the arguments of the library's
+/// `trace!` / `debug!` lines are evaluated, as they are in an application that has logging switched on.
+struct EvalLogger;
+struct Null;
+impl std::fmt::Write for Null {
+    fn write_str(&mut self, _s: &str) -> std::fmt::Result {
+        Ok(())
+    }
+}
+impl log::Log for EvalLogger {
+    fn enabled(&self, _m: &log::Metadata) -> bool {
+        true
+    }
+    fn log(&self, record: &log::Record) {
+        let _ = std::fmt::Write::write_fmt(&mut Null, *record.args());
+    }
+    fn flush(&self) {}
+}
+
 fn main() {
     let argv: Vec<String> = std::env::args().collect();
     if argv.len() < 2 {
@@ -101,6 +120,17 @@ fn main() {
     let args = Args { cmd: argv[1].clone(), kv };
     // panics of the code under test are data; keep stderr quiet
     std::panic::set_hook(Box::new(|_| {}));
+    // logging on (except where the cost of parsing itself is measured)
+    if !args.cmd.starts_with("cost") {
+        static LOGGER: EvalLogger = EvalLogger;
+        let _ = log::set_logger(&LOGGER);
+        log::set_max_level(log::LevelFilter::Trace);
+    }
+    // environment in the style of libcups: nothing in the library may let it override explicit arguments
+    for (k, v) in [("IPP_PORT", "1"), ("IPP_USER", "envuser"), ("CUPS_SERVER", "decoy.invalid:1"), ("CUPS_USER", "envuser"), ("CUPS_ENCRYPTION", "Never"),
+        ("IPP_SERVER", "decoy.invalid"), ("IPP_TIMEOUT", "0"), ("IPP_URI", "ipp://decoy.invalid/x")] {
+        std::env::set_var(k, v);
+    }
     match args.cmd.as_str() {
         "wire" => wirecases::run(&args),
         "total" => total::run(&args),
